@@ -165,7 +165,7 @@ pub fn run_c10(ctx: &mut Ctx) {
         ctx.rng_state = Some(r.state());
         let start = *r.pick(model::START_VALUES);
         let len = 30 + r.below(271);
-        let ops: Vec<Op> = (0..len).map(|_| model::random_op(&mut r)).collect();
+        let ops: Vec<Op> = model::random_history(&mut r, len);
         let Ok(mut l) = start.parse::<Locale>() else {
             ctx.count("setup: start value rejected by the library (history skipped)");
             continue;
@@ -337,7 +337,7 @@ pub fn run_c10_miri(ctx: &mut Ctx) {
         ctx.rng_state = Some(r.state());
         let start = *r.pick(model::START_VALUES);
         let len = 12 + r.below(14);
-        let ops: Vec<Op> = (0..len).map(|_| model::random_op(&mut r)).collect();
+        let ops: Vec<Op> = model::random_history(&mut r, len);
         let Ok(mut l) = start.parse::<Locale>() else { continue };
         let mut m = obs_loc(&l);
         ctx.count("random_histories");
@@ -403,7 +403,7 @@ pub fn gen_value(r: &mut Rng) -> (Locale, &'static str, Value) {
                 Err(_) => ("und", Locale::default()),
             };
             let n = 1 + r.below(25);
-            let ops: Vec<Op> = (0..n).map(|_| model::random_op(r)).collect();
+            let ops: Vec<Op> = model::random_history(r, n);
             for op in &ops {
                 let _ = guard(|| model::apply_lib(&mut l, op));
             }
@@ -432,7 +432,7 @@ fn run_values(ctx: &mut Ctx, tag: u64, n_hist: u64, n_other: u64, check: fn(&str
         ctx.rng_state = Some(r.state());
         let start = *r.pick(model::START_VALUES);
         let len = 10 + r.below(120);
-        let ops: Vec<Op> = (0..len).map(|_| model::random_op(&mut r)).collect();
+        let ops: Vec<Op> = model::random_history(&mut r, len);
         let Ok(mut l) = start.parse::<Locale>() else {
             ctx.count("setup: start value rejected by the library (history skipped)");
             continue;
